@@ -128,6 +128,7 @@ Formulas == <<
   <<"P_C25_UpgradeHandsOver", P_C25_UpgradeHandsOver>>,
   <<"P_C06_StreamStatesAreRfcStates", P_C06_StreamStatesAreRfcStates>>,
   <<"P_C07_EventsFitRole", P_C07_EventsFitRole>>,
+  <<"P_C07_EventGrammar", P_C07_EventGrammar>>,
   <<"P_C08_RoleRestrictedSends", P_C08_RoleRestrictedSends>>,
   <<"P_C09_IdsIncreaseWithParity", P_C09_IdsIncreaseWithParity>>,
   <<"P_C10_OutboundWithinPeerLimit", P_C10_OutboundWithinPeerLimit>>,
@@ -138,6 +139,7 @@ Formulas == <<
   <<"P_C15_DeliveredBlocksConformant", P_C15_DeliveredBlocksConformant>>,
   <<"P_C16_ContentLength", P_C16_ContentLength>>,
   <<"P_C18_OneGoAwayWithCode", P_C18_OneGoAwayWithCode>>,
+  <<"P_C18_SizeViolationsAreFrameSizeErrors", P_C18_SizeViolationsAreFrameSizeErrors>>,
   <<"P_C19_ClosedStaysQuiet", P_C19_ClosedStaysQuiet>>,
   <<"P_C20_ResetRacesAreStreamErrors", P_C20_ResetRacesAreStreamErrors>>,
   <<"P_C22_PushOnlyWhenAllowed", P_C22_PushOnlyWhenAllowed>>,
